@@ -1957,3 +1957,290 @@ Theorem either_block : forall f f' s s',
 Proof.
   intros f f' s s' H H' Hf Hf' E. rewrite (read_denote f s H Hf), (read_denote f' s' H' Hf'). exact E.
 Qed.
+
+(* ================================================================== histories with edits: what keeps [clean] *)
+(* an importance dict in which every particle has its own tree, labelled with that particle only: every cell made
+   by Cell(), every cell whose importances came from data-block cards of one particle each *)
+Definition plain_group (gr : igroup) : bool :=
+  match fst gr, t_parts (snd gr), t_order (snd gr) with
+  | [k], [a], [b] => andb (Nat.eqb a k) (Nat.eqb b k)
+  | _, _, _ => false
+  end.
+Definition plainok (g : list igroup) : bool := andb (forallb plain_group g) (nodup_p (ikeys g)).
+
+Lemma plain_group_inv : forall gr, plain_group gr = true ->
+  exists k v, gr = ([k], mkT v [k] [k]).
+Proof.
+  intros [ks [v ps os]] H. unfold plain_group in H. simpl in H.
+  destruct ks as [|k [|k2 r]]; try discriminate.
+  destruct ps as [|a [|a2 r2]]; try discriminate.
+  destruct os as [|b [|b2 r3]]; try discriminate.
+  apply andb_true_iff in H. destruct H as [A B]. apply Nat.eqb_eq in A. apply Nat.eqb_eq in B. subst. eauto.
+Qed.
+
+Lemma plain_ifind : forall g x t, forallb plain_group g = true -> ifind x g = Some t ->
+  In ([x], t) g /\ t_parts t = [x] /\ t_order t = [x].
+Proof.
+  induction g as [|gr r IH]; simpl; intros x t H F; try discriminate.
+  apply andb_true_iff in H. destruct H as [Hg Hr].
+  destruct (plain_group_inv _ Hg) as [k [v ->]]. cbn [ifind] in F. rewrite mem_single in F.
+  destruct (Nat.eqb x k) eqn:E.
+  - apply Nat.eqb_eq in E. subst k. inversion F; subst. simpl. auto.
+  - destruct (IH x t Hr F) as [A B]. split; auto.
+Qed.
+
+Lemma plainok_struct : forall mode g, plainok g = true ->
+  imp_parts_ok g = true /\ imp_keys_ok mode g = true.
+Proof.
+  intros mode g H. unfold plainok in H. apply andb_true_iff in H. destruct H as [Hp Hn]. split.
+  - unfold imp_parts_ok. rewrite Hn. simpl. apply forallb_forall. intros gr Hin.
+    pose proof Hp as Hp'. rewrite forallb_forall in Hp'.
+    destruct (plain_group_inv _ (Hp' gr Hin)) as [k [v ->]].
+    unfold group_ok. simpl. rewrite Nat.eqb_refl. simpl. rewrite andb_true_r.
+    assert (Hk : mem k (ikeys g) = true).
+    { apply mem_In. unfold ikeys. apply in_flat_map. exists ([k], mkT v [k] [k]). split; simpl; auto. }
+    rewrite Hk. simpl.
+    apply ifind_key in Hk. destruct Hk as [t Ht].
+    destruct (plain_ifind g k t Hp Ht) as [_ [P _]].
+    unfold parts_of. rewrite Ht, P. unfold seteq, subset. simpl. rewrite Nat.eqb_refl. reflexivity.
+  - unfold imp_keys_ok. apply forallb_forall. intros gr Hin.
+    rewrite forallb_forall in Hp. destruct (plain_group_inv _ (Hp gr Hin)) as [k [v ->]]. simpl.
+    rewrite orb_false_r. unfold subset. simpl. destruct (mem k mode); reflexivity.
+Qed.
+
+Lemma ikeys_cons : forall ks t r, ikeys ((ks, t) :: r) = ks ++ ikeys r.
+Proof. reflexivity. Qed.
+
+Lemma iupd_plain : forall q v g, forallb plain_group g = true ->
+  forallb plain_group (iupd q (fun t => mkT v (t_parts t) (t_order t)) g) = true /\
+  ikeys (iupd q (fun t => mkT v (t_parts t) (t_order t)) g) = ikeys g.
+Proof.
+  intros q v. induction g as [|[ks t] r IH]; simpl; intros H; auto.
+  apply andb_true_iff in H. destruct H as [Hg Hr].
+  destruct (mem q ks).
+  - simpl. split; [|reflexivity]. rewrite Hr, andb_true_r. exact Hg.
+  - destruct (IH Hr) as [A B]. simpl. rewrite Hg, A. split; auto.
+    unfold ikeys in *. simpl. rewrite B. reflexivity.
+Qed.
+
+Lemma iset_existing_plain : forall q v g, forallb plain_group g = true ->
+  forallb plain_group (iset_existing q v g) = true /\ ikeys (iset_existing q v g) = ikeys g.
+Proof.
+  intros q v. induction g as [|gr r IH]; intros H; [simpl; auto|].
+  cbn [forallb] in H. apply andb_true_iff in H. destruct H as [Hg Hr].
+  destruct (plain_group_inv _ Hg) as [k [v0 ->]].
+  cbn [iset_existing]. rewrite mem_single. destruct (Nat.eqb q k) eqn:E.
+  - apply Nat.eqb_eq in E. subst k. rewrite remove_p_self. cbn [t_parts t_order]. split.
+    + cbn [forallb]. rewrite Hr, andb_true_r. unfold plain_group. simpl. rewrite Nat.eqb_refl. reflexivity.
+    + reflexivity.
+  - destruct (IH Hr) as [A B]. split.
+    + cbn [forallb]. rewrite A, andb_true_r. exact Hg.
+    + rewrite !ikeys_cons, B. reflexivity.
+Qed.
+
+Lemma nodup_p_snoc : forall l q, nodup_p l = true -> mem q l = false -> nodup_p (l ++ [q]) = true.
+Proof.
+  induction l as [|x r IH]; simpl; intros q H M; auto.
+  apply andb_true_iff in H. destruct H as [Hx Hr].
+  apply orb_false_iff in M. destruct M as [Mq Mr].
+  rewrite (IH q Hr Mr), andb_true_r. rewrite mem_app. apply negb_true_iff in Hx. rewrite Hx. simpl.
+  rewrite orb_false_r. apply negb_true_iff. rewrite Nat.eqb_sym. exact Mq.
+Qed.
+
+Lemma iset_plainok : forall l m q v g, plainok g = true -> plainok (iset l m q v g) = true.
+Proof.
+  intros l m q v g H. unfold plainok in *. apply andb_true_iff in H. destruct H as [Hp Hn].
+  unfold iset. destruct (mem q (ikeys g)) eqn:Ek.
+  - destruct (iset_existing_plain q v g Hp) as [A B]. rewrite A, B, Hn. reflexivity.
+  - rewrite forallb_app, Hp. cbn [forallb]. unfold plain_group at 1. simpl. rewrite Nat.eqb_refl. simpl.
+    rewrite ikeys_app, ikeys_single. apply nodup_p_snoc; auto.
+Qed.
+
+Lemma iset_all_plainok : forall mode v g, plainok g = true -> plainok (iset_all mode v g) = true.
+Proof.
+  intros mode v. unfold iset_all. induction mode as [|q r IH]; simpl; intros g H; auto.
+  apply IH. unfold plainok in *. apply andb_true_iff in H. destruct H as [Hp Hn].
+  destruct (mem q (ikeys g)) eqn:Ek.
+  - destruct (iupd_plain q v g Hp) as [A B]. rewrite A, B, Hn. reflexivity.
+  - rewrite forallb_app, Hp. cbn [forallb]. unfold plain_group at 1. simpl. rewrite Nat.eqb_refl. simpl.
+    rewrite ikeys_app, ikeys_single. apply nodup_p_snoc; auto.
+Qed.
+
+Lemma idel_plain : forall q g, forallb plain_group g = true ->
+  forallb plain_group (idel q g) = true /\ (forall x, mem x (ikeys (idel q g)) = true -> mem x (ikeys g) = true) /\
+  (nodup_p (ikeys g) = true -> nodup_p (ikeys (idel q g)) = true).
+Proof.
+  intros q. induction g as [|gr r IH]; intros H; [simpl; auto|].
+  cbn [forallb] in H. apply andb_true_iff in H. destruct H as [Hg Hr].
+  destruct (plain_group_inv _ Hg) as [k [v0 ->]].
+  cbn [idel]. rewrite mem_single. destruct (Nat.eqb q k) eqn:E.
+  - apply Nat.eqb_eq in E. subst k. rewrite remove_p_self. split; [exact Hr|]. split.
+    + intros x Hx. rewrite ikeys_cons, mem_app, Hx. apply orb_true_r.
+    + rewrite ikeys_cons. simpl. intro N. apply andb_true_iff in N. apply N.
+  - destruct (IH Hr) as [A [B C]]. split; [|split].
+    + cbn [forallb]. rewrite A, andb_true_r. exact Hg.
+    + intros x. rewrite !ikeys_cons, !mem_app. intro Hx. apply orb_true_iff in Hx. destruct Hx as [Hx|Hx].
+      * rewrite Hx. reflexivity.
+      * rewrite (B x Hx). apply orb_true_r.
+    + rewrite !ikeys_cons. simpl. intro N. apply andb_true_iff in N. destruct N as [N1 N2].
+      rewrite (C N2), andb_true_r. apply negb_true_iff. apply negb_true_iff in N1.
+      destruct (mem k (ikeys (idel q r))) eqn:Em; auto. rewrite (B k Em) in N1. discriminate.
+Qed.
+
+Lemma idel_plainok : forall q g, plainok g = true -> plainok (idel q g) = true.
+Proof.
+  intros q g H. unfold plainok in *. apply andb_true_iff in H. destruct H as [Hp Hn].
+  destruct (idel_plain q g Hp) as [A [_ C]]. rewrite A, (C Hn). reflexivity.
+Qed.
+
+Definition struct_ok (mode : list particle) (c : cell) : bool :=
+  andb (imp_parts_ok (c_imp c)) (imp_keys_ok mode (c_imp c)).
+
+(* the structural part of [clean], for the cells of the problem and for the cell that is being built *)
+Definition sstruct (s : state) : bool :=
+  andb (forallb (struct_ok (s_mode s)) (s_cells s))
+       (match s_scratch s with Some (c, _) => struct_ok (s_mode s) c | None => true end).
+
+Definition target_plain (s : state) (t : target) : bool :=
+  match t with
+  | TScratch => match s_scratch s with Some (c, _) => plainok (c_imp c) | None => true end
+  | TCell n => match find_cell n (s_cells s) with Some c => plainok (c_imp c) | None => true end
+  end.
+
+(* an importance is set / deleted only on a cell whose trees are plain (a cell made by Cell(), a cell whose
+   importances came from one-particle data cards); every other statement is unrestricted *)
+Definition safe_op (s : state) (o : op) : bool :=
+  match o with
+  | OSetImp t _ _ | ODelImp t _ | OSetAll t _ => target_plain s t
+  | _ => true
+  end.
+Fixpoint all_safe (s : state) (ops : list op) : bool :=
+  match ops with
+  | [] => true
+  | o :: r => andb (safe_op s o) (all_safe (do_op s o) r)
+  end.
+
+Lemma plainok_struct_ok : forall mode c, plainok (c_imp c) = true -> struct_ok mode c = true.
+Proof.
+  intros mode c H. unfold struct_ok. destruct (plainok_struct mode _ H) as [A B]. rewrite A, B. reflexivity.
+Qed.
+
+Lemma struct_ok_same_imp : forall mode c c', c_imp c' = c_imp c -> struct_ok mode c' = struct_ok mode c.
+Proof. intros mode c c' H. unfold struct_ok. rewrite H. reflexivity. Qed.
+
+Lemma upd_cell_forallb : forall (P : cell -> bool) n c' l,
+  forallb P l = true -> P c' = true -> forallb P (upd_cell n (fun _ => c') l) = true.
+Proof.
+  intros P n c'. induction l as [|x r IH]; simpl; intros H Hc; auto.
+  apply andb_true_iff in H. destruct H as [Hx Hr].
+  destruct (Z.eqb (c_num x) n); simpl.
+  - rewrite Hc, Hr. reflexivity.
+  - rewrite Hx, IH; auto.
+Qed.
+
+Lemma forallb_In : forall {A} (P : A -> bool) l x, forallb P l = true -> In x l -> P x = true.
+Proof. intros A P l x H Hin. rewrite forallb_forall in H. auto. Qed.
+
+(* an edit keeps struct_ok, given that the cell is plain when the edit touches the importance *)
+Definition edit_keeps (e : edit) (needs_plain : bool) : Prop :=
+  forall l mode c c', e l mode c = Ok c' -> struct_ok mode c = true ->
+    (needs_plain = true -> plainok (c_imp c) = true) -> struct_ok mode c' = true.
+
+Lemma apply_edit_sstruct : forall s t e s' np, edit_keeps e np ->
+  (np = true -> target_plain s t = true) ->
+  apply_edit s t e = Ok s' -> sstruct s = true -> sstruct s' = true.
+Proof.
+  intros s t e s' np He Hp H S. unfold sstruct in *. apply andb_true_iff in S. destruct S as [Sc Ss].
+  unfold apply_edit in H. destruct t as [|n].
+  - destruct (s_scratch s) as [[c l]|] eqn:Es; try discriminate.
+    destruct (e l (s_mode s) c) as [c'|] eqn:Ee; try discriminate. inversion H; subst; clear H. simpl.
+    rewrite Sc. simpl. eapply He; eauto. intro N. specialize (Hp N). simpl in Hp. rewrite Es in Hp. exact Hp.
+  - destruct (find_cell n (s_cells s)) as [c|] eqn:Ef; try discriminate.
+    destruct (e true (s_mode s) c) as [c'|] eqn:Ee; try discriminate. inversion H; subst; clear H. simpl.
+    rewrite Ss, andb_true_r. apply upd_cell_forallb; auto.
+    eapply He; eauto.
+    + eapply forallb_In; eauto. eapply find_cell_In; eauto.
+    + intro N. specialize (Hp N). simpl in Hp. rewrite Ef in Hp. exact Hp.
+Qed.
+
+Lemma keeps_set_imp : forall q v, edit_keeps (e_set_imp q v) true.
+Proof.
+  intros q v l mode c c' H _ Hp. unfold e_set_imp in H. destruct (andb l (negb (mem q mode))); inversion H.
+  apply plainok_struct_ok. simpl. apply iset_plainok. auto.
+Qed.
+Lemma keeps_del_imp : forall q, edit_keeps (e_del_imp q) true.
+Proof.
+  intros q l mode c c' H _ Hp. unfold e_del_imp in H. destruct (mem q (ikeys (c_imp c))); inversion H.
+  apply plainok_struct_ok. simpl. apply idel_plainok. auto.
+Qed.
+Lemma keeps_set_all : forall v, edit_keeps (e_set_all v) true.
+Proof.
+  intros v l mode c c' H S Hp. unfold e_set_all in H. destruct l; inversion H; subst; auto.
+  apply plainok_struct_ok. simpl. apply iset_all_plainok. auto.
+Qed.
+Lemma keeps_other : forall (e : edit),
+  (forall l mode c c', e l mode c = Ok c' -> c_imp c' = c_imp c) -> edit_keeps e false.
+Proof.
+  intros e H l mode c c' He S _. rewrite (struct_ok_same_imp mode c c'); auto. eapply H; eauto.
+Qed.
+
+Lemma do_op_sstruct : forall s o, sstruct s = true -> safe_op s o = true -> sstruct (do_op s o) = true.
+Proof.
+  intros s o S Hs. unfold do_op. destruct (step_op s o) as [s'|] eqn:E; auto.
+  destruct o; simpl in E; simpl in Hs.
+  - (* flip *) inversion E; subst. exact S.
+  - (* new *) inversion E; subst. unfold sstruct in *. simpl. apply andb_true_iff in S. destruct S as [Sc _].
+    rewrite Sc. simpl. apply plainok_struct_ok. reflexivity.
+  - (* copy *) destruct (find_cell src (s_cells s)) as [c|] eqn:Ef; try discriminate.
+    destruct (zmem n (numbers (s_cells s))); inversion E; subst. unfold sstruct in *. simpl.
+    apply andb_true_iff in S. destruct S as [Sc _]. rewrite Sc. simpl.
+    rewrite (struct_ok_same_imp (s_mode s) c (set_num c n)) by reflexivity.
+    eapply forallb_In; eauto. eapply find_cell_In; eauto.
+  - (* append *) destruct (s_scratch s) as [[c l]|] eqn:Es; try discriminate.
+    destruct (zmem (c_num c) (numbers (s_cells s))); inversion E; subst. unfold sstruct in *. simpl.
+    rewrite Es in S. apply andb_true_iff in S. destruct S as [Sc Ss].
+    rewrite forallb_app, Sc. simpl. rewrite Ss. reflexivity.
+  - (* remove *) destruct (find_cell n (s_cells s)); inversion E; subst. unfold sstruct in *. simpl.
+    apply andb_true_iff in S. destruct S as [Sc Ss]. rewrite Ss, andb_true_r.
+    apply forallb_forall. intros x Hx. apply filter_In in Hx. eapply forallb_In; eauto. tauto.
+  - (* reorder *) destruct (pick_cells ns (s_cells s)) as [cs|] eqn:Ep; try discriminate.
+    destruct (nodupb ns); inversion E; subst. unfold sstruct in *. simpl.
+    apply andb_true_iff in S. destruct S as [Sc Ss]. rewrite Ss, andb_true_r.
+    apply forallb_forall. intros x Hx. eapply forallb_In; eauto. eapply pick_cells_In; eauto.
+  - eapply (apply_edit_sstruct s t _ s' true (keeps_set_imp q v)); eauto.
+  - eapply (apply_edit_sstruct s t _ s' true (keeps_del_imp q)); eauto.
+  - eapply (apply_edit_sstruct s t _ s' true (keeps_set_all v)); eauto.
+  - eapply (apply_edit_sstruct s t _ s' false); eauto; [apply keeps_other|discriminate].
+    intros l mode c c' H. unfold e_set_vol in H. inversion H. reflexivity.
+  - eapply (apply_edit_sstruct s t _ s' false); eauto; [apply keeps_other|discriminate].
+    intros l mode c c' H. unfold e_del_vol in H. inversion H. reflexivity.
+  - eapply (apply_edit_sstruct s t _ s' false); eauto; [apply keeps_other|discriminate].
+    intros l mode c c' H. unfold e_set_u in H. inversion H. reflexivity.
+  - eapply (apply_edit_sstruct s t _ s' false); eauto; [apply keeps_other|discriminate].
+    intros l mode c c' H. unfold e_set_lat in H. inversion H. reflexivity.
+  - eapply (apply_edit_sstruct s t _ s' false); eauto; [apply keeps_other|discriminate].
+    intros l mode c c' H. unfold e_set_fill in H. inversion H. reflexivity.
+Qed.
+
+Theorem run_ops_sstruct : forall ops s, sstruct s = true -> all_safe s ops = true -> sstruct (run_ops s ops) = true.
+Proof.
+  unfold run_ops. induction ops as [|o r IH]; simpl; intros s S A; auto.
+  apply andb_true_iff in A. destruct A as [A1 A2]. apply IH; auto. apply do_op_sstruct; auto.
+Qed.
+
+Lemma sstruct_clean : forall s, sstruct s = true -> imp_data_ok s = true -> fill_ok s = true -> clean s = true.
+Proof.
+  intros s S D F. unfold clean. rewrite D, F, !andb_true_r.
+  unfold imp_cell_ok. apply orb_true_iff. right. unfold sstruct in S. apply andb_true_iff in S. destruct S as [Sc _].
+  exact Sc.
+Qed.
+
+(* histories with every kind of statement: if importances are only edited on plain cells, the final state is
+   written exactly once whenever MontePy does not refuse it *)
+Theorem safe_history : forall s ops, wf s -> sstruct s = true -> all_safe s ops = true ->
+  imp_data_ok (run_ops s ops) = true -> fill_ok (run_ops s ops) = true -> exactly_once (run_ops s ops).
+Proof.
+  intros s ops Hwf S A D F. apply exactly_once_clean.
+  - apply run_ops_wf. exact Hwf.
+  - apply sstruct_clean; auto. apply run_ops_sstruct; auto.
+Qed.
